@@ -122,6 +122,11 @@ def boundary_schema():
     s.add(T("late", "type", prim="uint32", since=2 ** 32, depr=U64))
     s.add(T("text", "type", prim="char", length=2 ** 32 + 5, since=U64 - 1))
     s.add(T("far", "composite", members=[T("a", "type", prim="uint8"), T("b", "type", prim="uint16", offset=2 ** 32 + 1)], since=7))
+    # a nested composite with its own offset (applied once, by the parent) and a sibling after it
+    s.add(T("quote", "composite", members=[T("flags", "type", prim="uint8"),
+                                           T("px", "composite", offset=4, members=[T("mantissa", "type", prim="int32"),
+                                                                                   T("exponent", "type", prim="int8")]),
+                                           T("qty", "type", prim="uint16")]))
     s.add(T("e", "enum", prim="uint64", values=[V("top", str(U64 - 1), since=U64), V("zero", "0")]))
     s.add(T("st", "set", prim="uint64", values=[V("hi", "63", since=2 ** 33), V("lo", "0")]))
     for i, mid in enumerate((65535, 65536, 70000, 2 ** 32 - 1)):
@@ -131,6 +136,7 @@ def boundary_schema():
         m.fields.append(F("g", 65534 - i, "e", since=1, depr=U64 - i))
         if i == 0:
             m.fields.append(F("s", 1, "st"))
+            m.fields.append(F("q", 2, "quote"))
         gr = G("grp", 65535, "dim", since=2 ** 35, block_length=(2 ** 32 + 2) if i == 2 else None)
         gr.fields.append(F("x", 65535, "uint8", since=U64))
         gr.data.append(D("dd", 65535, "vd", since=2 ** 63))
